@@ -1,5 +1,9 @@
+mod c01;
 mod c05;
 mod c15;
+mod dump;
+mod progen;
+mod godump;
 mod probe;
 mod rng;
 mod sexp;
@@ -13,6 +17,7 @@ fn main() {
     }
     let args = util::parse_args(&argv[2..]);
     match argv[1].as_str() {
+        "c01" => c01::main(&args),
         "c05" => c05::main(&args),
         "c15" => c15::main(&args),
         "probe" => probe::main(&args),
